@@ -287,5 +287,11 @@ func TestVerifC04(t *testing.T) {
 			c04Scenario("R9-add-cancelled(waiting for a new address)/"+n, dwCfg{V4: st[0], V6: st[1], Cap: 3, Batch: 2, Slots: 2, Pre: [][2]int{{1, 0}}, MaxIdle: 5}, c04Ops("add:q:c2"), [][]c04Op{c04Ops("addc:p:c1")}, c04Ops("add:p:c1"), [4]int{d - 1, 0, 0, 1}),
 		)
 	}
+	// the other interface selection policy: a request for a pod that already has an address meets an empty slot that sorts first
+	least := dwCfg{V4: true, Cap: 3, Batch: 2, Slots: 2, Pre: [][2]int{{2, 0}}, MaxIdle: 5, Least: true}
+	scs = append(scs,
+		c04Scenario("R1-add(new)||del(old)/v4/least_ips", least, c04Ops("add:p:old"), [][]c04Op{c04Ops("add:p:new"), c04Ops("del:p:old")}, c04Ops("get:p:new", "get:p:old"), [4]int{d - 1, 0, 0, 0}),
+		c04Scenario("R6-add;add||get/v4/least_ips", least, nil, [][]c04Op{c04Ops("add:p:c1", "add:p:c1"), c04Ops("get:p:c1")}, nil, [4]int{d - 1, 0, 0, 0}),
+	)
 	dwRun(r, t, scs, 150*time.Second, 30*time.Minute)
 }
